@@ -34,9 +34,9 @@ REQUIRED_PROBES = ["losses", "reconnects_after_loss", "watchdog_expiry", "stop_r
 
 RTS = [0.5, 1.0, 3.0, 10.0, 30.0]
 EVENTS = {
-    "serial": ["read_error", "write_error", "disconnect", "stop", "wait", "wait"],
+    "serial": ["read_error", "write_error", "both_errors", "disconnect", "stop", "wait", "wait"],
     "aserial": ["read_error", "write_error", "disconnect", "stop", "wait", "wait"],
-    "tcp": ["read_error", "write_error", "peer_eof", "peer_reset", "disconnect", "stop", "wait", "wait"],
+    "tcp": ["read_error", "write_error", "both_errors", "peer_eof", "peer_reset", "disconnect", "stop", "wait", "wait"],
     "atcp": ["read_error", "write_error", "peer_eof", "peer_reset", "disconnect", "stop", "wait", "wait"],
 }
 
@@ -49,7 +49,7 @@ def gen(rng, tier, index):
         mode = rng.choice(["watchdog_ok", "watchdog_silence"])
     elif rng.random() < 0.15:
         mode = "stop_during_retry"
-    outcomes = ["ok", "ok", "fail", "timeout", "unreach"] if flavour in ("tcp", "atcp") else ["ok", "ok", "fail"]
+    outcomes = ["ok", "ok", "slow", "fail", "timeout", "unreach"] if flavour in ("tcp", "atcp") else ["ok", "ok", "slow", "fail"]
     plan = [rng.choice(outcomes) for _ in range(rng.randint(0, 6))] if mode in ("events", "stop_during_retry") else []
     events = []
     if mode == "stop_during_retry":
@@ -144,6 +144,23 @@ def run(case):
                         conn.fail_write(exc)
                         losses.append({"conn": conn.conn_id, "t": sim.now, "user": False, "kind": name})
                         world.call("set_child_value", 1, 1, 24, "w")
+                    elif name == "both_errors" and conn is not None and 1 in gateway.sensors and 1 in gateway.sensors[1].children:
+                        # the device vanishes: the reader sees a read error and, at the same moment, a
+                        # write of the pump fails (the re-dial that follows may be slow)
+                        exc_r = _real_serial.SerialException("device gone") if flavour == "serial" else OSError(104, "reset")
+                        exc_w = _real_serial.SerialException("write failed") if flavour == "serial" else BrokenPipeError(32, "Broken pipe")
+                        dev.connect_plan.insert(0, "slow")
+                        conn.fail_write(exc_w)
+
+                        def unplug(c, _data, target=conn, exc=exc_r):
+                            # at the instant the pump is inside its write the reader's read fails too
+                            if c is target:
+                                dev.write_hook = None
+                                target.fail_read(exc)
+
+                        dev.write_hook = unplug
+                        losses.append({"conn": conn.conn_id, "t": sim.now, "user": False, "kind": name})
+                        world.call("set_child_value", 1, 1, 24, "w")
                     elif name == "peer_eof" and conn is not None:
                         if is_async:
                             conn.peer_eof()
@@ -180,7 +197,7 @@ def run(case):
                     else:
                         faults[name] -= 1
                     world.advance(gap)
-                    if name in ("read_error", "write_error", "peer_eof", "peer_reset"):
+                    if name in ("read_error", "write_error", "both_errors", "peer_eof", "peer_reset"):
                         world.advance(2.6 * rt + 0.7)  # enough for the watchdog path of the threaded TCP gateway
                 if user_disconnected is not None or stop_called is not None:
                     world.advance(60.0)
@@ -284,10 +301,10 @@ def _oracle(world, cfg, violations, probes, losses, stop_called, stop_returned, 
             break
     # ---- reconnect supervision ----------------------------------------------------------------------
     attempts = dev.attempts
-    fail_time = {"fail": 0.0, "timeout": rt, "unreach": min(1.0, rt) if is_async else min(3.0, rt)}
+    fail_time = {"fail": 0.0, "timeout": rt, "unreach": min(1.0, rt) if is_async else min(3.0, rt), "slow": 0.0}
     t_end = sim.now
     for i, (t, outcome, _args) in enumerate(attempts):
-        if outcome == "ok":
+        if outcome in ("ok", "slow"):
             continue
         if end_user is not None and t + fail_time[outcome] + rt > end_user - 1e-6:
             continue
@@ -324,7 +341,7 @@ def _oracle(world, cfg, violations, probes, losses, stop_called, stop_returned, 
         if i == 0:
             continue
         prev = attempts[i - 1]
-        after_fail = prev[1] != "ok"
+        after_fail = prev[1] not in ("ok", "slow")
         after_close = any(c.closed_at is not None and c.closed_at - 0.05 <= t for c in conns)
         if not after_fail and not after_close:
             violations.append(_vio("spurious-connect-attempt", {"t": t, "attempts": [(round(a[0], 3), a[1]) for a in attempts][:10]}))
